@@ -199,6 +199,12 @@ func c15Cases(c *Ctx) []c15Case {
 			}
 		}
 	}
+	// rotate the kinds of source and destination through all five (the copy rule does not depend on
+	// the kind, so every kind is sampled evenly at no extra cost)
+	for i := range out {
+		out[i].SrcKind = kindNames[i%5]
+		out[i].DstKind = kindNames[(i/5+i)%5]
+	}
 	return out
 }
 
